@@ -247,7 +247,6 @@ def small_cases(tier):
     out.append({"kind": "parallel-with-map", "n": 1, "mc": 0})
     out.append({"kind": "map", "n": 3, "mc": 2, "two": False, "caught": [0], "recover_delay": 2})
     out.append({"kind": "map-of-looped-parallel", "n": 1, "mc": 0})
-    out.append({"kind": "map", "n": 3, "mc": 1, "two": False, "dup": 1})
     if tier == "thorough":
         out += [{"kind": "parallel", "n": 3, "two": False}, {"kind": "map", "n": 3, "mc": 2, "two": False}, {"kind": "map", "n": 3, "mc": 0, "two": False},
                 {"kind": "map-of-parallel", "n": 2, "mc": 1}, {"kind": "map-of-map", "n": 2, "mc": 1, "inner_mc": 1}, {"kind": "parallel-with-map", "n": 2, "mc": 1}]
